@@ -345,10 +345,12 @@ pub fn run_staged(source: &str, t: &Tuple) -> Staged {
         c.shim = stage_shim(t, 2, source.len());
         let r = run_child(&dir, &c);
         st.children += 4;
-        // the stages are chained with &&; an output file is created (empty) before its stage can fail
+        // Where the script keeps its intermediates is its own business (next to the source today; a scratch directory would do):
+        // they are examined when they are there, and the verdict on the wrapper is its final output and status against `run`.
+        // Only a wrapper that ends unsuccessfully while `run` succeeds is attributed to the stage whose artefact is missing.
         st.ast_bytes = std::fs::read(dir.join(format!("{}.json", stem))).ok().filter(|b| !b.is_empty());
         st.bc_bytes = std::fs::read(dir.join(format!("{}.bc", stem))).ok().filter(|b| !b.is_empty());
-        if st.ast_bytes.is_none() || st.bc_bytes.is_none() {
+        if !r.exit.is_success() && (st.ast_bytes.is_none() || st.bc_bytes.is_none()) && (dir.join(format!("{}.json", stem)).exists() || dir.join(format!("{}.bc", stem)).exists()) {
             st.failed = Some(StageFail { stage: if st.ast_bytes.is_none() { "parse" } else { "compile" }, exit: r.exit.clone(), message: r.stderr_masked(400) });
         }
         st.exec = Some(r);
@@ -388,6 +390,7 @@ pub fn run_staged(source: &str, t: &Tuple) -> Staged {
     }
     c.shim = stage_shim(t, 0, source.len());
     crashed_predecessor(t, 0, &dir, &c, &mut st);
+    let astdir_before = snapshot_dir(&dir.join("astdir"));
     let r = run_child(&dir, &c);
     st.children += 1;
     st.calls[0] = count_calls(&r.trace);
@@ -403,9 +406,9 @@ pub fn run_staged(source: &str, t: &Tuple) -> Staged {
     // -o DIR: exactly one file must have appeared
     let ast_location: Option<String> = match ast_location {
         Some(p) if p.ends_with('/') => {
-            let names = list_dir(&dir.join("astdir"));
+            let names = changed_since(&dir.join("astdir"), &astdir_before);
             if names.len() != 1 {
-                st.failed = Some(StageFail { stage: "parse", exit: r.exit.clone(), message: format!("exit 0 with -o DIR, but the directory now holds {} files: {:?}", names.len(), names) });
+                st.failed = Some(StageFail { stage: "parse", exit: r.exit.clone(), message: format!("exit 0 with -o DIR, but {} files of the directory are new or changed: {:?}", names.len(), names) });
                 let _ = std::fs::remove_dir_all(&dir);
                 return st;
             }
@@ -461,6 +464,7 @@ pub fn run_staged(source: &str, t: &Tuple) -> Staged {
     if t.compile_out == Chan::StdoutFile { c.stdout = Out::File("redirected.bc".into()); }
     c.shim = stage_shim(t, 1, source.len());
     crashed_predecessor(t, 1, &dir, &c, &mut st);
+    let bcdir_before = snapshot_dir(&dir.join("bcdir"));
     let r = run_child(&dir, &c);
     st.children += 1;
     st.calls[1] = count_calls(&r.trace);
@@ -475,9 +479,9 @@ pub fn run_staged(source: &str, t: &Tuple) -> Staged {
     }
     let bc_location: Option<String> = match bc_location {
         Some(p) if p.ends_with('/') => {
-            let names = list_dir(&dir.join("bcdir"));
+            let names = changed_since(&dir.join("bcdir"), &bcdir_before);
             if names.len() != 1 {
-                st.failed = Some(StageFail { stage: "compile", exit: r.exit.clone(), message: format!("exit 0 with -o DIR, but the directory now holds {} files: {:?}", names.len(), names) });
+                st.failed = Some(StageFail { stage: "compile", exit: r.exit.clone(), message: format!("exit 0 with -o DIR, but {} files of the directory are new or changed: {:?}", names.len(), names) });
                 let _ = std::fs::remove_dir_all(&dir);
                 return st;
             }
@@ -518,6 +522,22 @@ pub fn run_staged(source: &str, t: &Tuple) -> Staged {
     st.exec = Some(r);
     let _ = std::fs::remove_dir_all(&dir);
     st
+}
+
+/// Files of `d` with their contents: taken just before a stage runs, so that its output can be told from what was there already
+/// (leftovers of a killed earlier invocation are durable state, not output of this one).
+fn snapshot_dir(d: &std::path::Path) -> Vec<(String, Vec<u8>, Option<std::time::SystemTime>)> {
+    list_dir(d).into_iter().map(|n| { let b = std::fs::read(d.join(&n)).unwrap_or_default(); let m = std::fs::metadata(d.join(&n)).and_then(|m| m.modified()).ok(); (n, b, m) }).collect()
+}
+
+/// Names in `d` that are new, or whose contents or modification time changed since `before` (a file rewritten with the very
+/// same bytes is still this stage's output).
+fn changed_since(d: &std::path::Path, before: &[(String, Vec<u8>, Option<std::time::SystemTime>)]) -> Vec<String> {
+    list_dir(d).into_iter().filter(|n| {
+        let now = std::fs::read(d.join(n)).unwrap_or_default();
+        let m = std::fs::metadata(d.join(n)).and_then(|m| m.modified()).ok();
+        !before.iter().any(|(k, b, t)| k == n && *b == now && *t == m)
+    }).collect()
 }
 
 fn list_dir(d: &std::path::Path) -> Vec<String> {
@@ -702,6 +722,14 @@ pub fn judge(prep: &Prepared, t: &Tuple, direct: &ChildResult, st: &Staged) -> O
     }
     // O3 behaviour
     if let Some(e) = &st.exec {
+        if t.wrapper && st.failed.is_none() && direct.exit.is_success() && e.exit.is_clean_failure() && e.stdout.is_empty() && prep.json_nesting >= 128 {
+            // the wrapper keeps its intermediates out of sight and ends unsuccessfully on a program whose JSON form is nested beyond
+            // the deserializer's limit: that is its compile stage refusing (the recorded finding decides whether this is news)
+            let msg = e.stderr_masked(400);
+            return Some(Verdict { oracle: "O4:compile_stage_refuses_program_that_run_accepts".into(),
+                detail: format!("compile stage (json, wrapper script) ended with {}: {}", e.exit.show(), first_line(&msg, 160)),
+                signature: sig("O4", json!({"stage": "compile", "message": msg, "died_by_signal": false})) });
+        }
         if e.exit != direct.exit || e.stdout != direct.stdout {
             let at = first_difference(&e.stdout, &direct.stdout).unwrap_or(0);
             return Some(Verdict { oracle: "O3:staged_execution_differs_from_run".into(),
